@@ -6,6 +6,7 @@ package vsys
 
 import (
 	"fmt"
+	"os"
 	"reflect"
 	"sort"
 	"strings"
@@ -31,6 +32,9 @@ func (l nopLogger) With(...any) log.Logger      { return l }
 func (l nopLogger) WithGroup(string) log.Logger { return l }
 
 var Silent log.Logger = nopLogger{}
+
+// Verbose (env VSYS_VERBOSE) logs every envelope reaching HandleEnvelop; for replays only.
+var Verbose = os.Getenv("VSYS_VERBOSE") != ""
 
 // ---- deterministic uuid stream -----------------------------------------------------------
 
@@ -143,6 +147,9 @@ func describe(m any) (typ, detail string) {
 		_, d := describe(v.Message)
 		return "PipeResult", fmt.Sprintf("%s err=%v", d, v.Error)
 	case ves.DeathLetterEvent:
+		if _, nested := v.Envelope.Message().(ves.DeathLetterEvent); nested {
+			return "Event:DeathLetter", "DeathLetter(...)->/"
+		}
 		t, d := describe(v.Envelope.Message())
 		rc := "<nil>"
 		if v.Envelope.Receiver() != nil {
@@ -176,6 +183,9 @@ func NewWorld(x *vexp.X, opts ...vivid.ActorSystemOption) *World {
 		t, d := describe(env.Message())
 		w.seq++
 		w.Handled = append(w.Handled, Handled{Seq: w.seq, Path: c.Ref().GetPath(), Type: t, Detail: d, System: env.System(), Ctx: c})
+		if Verbose {
+			x.Logf("handle %s <- %s(%s) sys=%v state=%d", c.Ref().GetPath(), t, d, env.System(), actor.VerifCtx(c).State)
+		}
 	})
 	vrt.Tap("actor.(*eventStream).Publish", func(args ...any) {
 		ctx := args[1].(vivid.EventStreamContext)
